@@ -6,6 +6,7 @@ TIER=${1:-quick}
 cd /verif
 for d in /verif/seeded/*/; do
   name=$(basename $d); id=$(echo $name | cut -c1-3)
+  if grep -q '"obsolete"' $d/meta.json 2>/dev/null; then echo "OBSOLETE $name (the change no longer breaks the property on the repaired tree, see meta.json)"; continue; fi
   WT=/tmp/matrix-$name
   git -C /repo worktree remove --force $WT >/dev/null 2>&1
   git -C /repo worktree add -q $WT HEAD || { echo "BROKEN $name (worktree)"; continue; }
